@@ -606,7 +606,7 @@ package ion
 //@ requires brInv(r)
 //@ modifies r.ctx.arr, r.eof, r.fieldName, r.annotations, r.valueType, r.value, r.bits.pos, r.bits.state, r.bits.code, r.bits.null, r.bits.len, r.bits.stack.arr, vcStreamOf(r.bits.in).cur
 //@ ensures[C07,C08] old(r.err) != nil ==> err == old(r.err) && len(r.ctx.arr) == old(len(r.ctx.arr)) && r.valueType == old(r.valueType)
-//@ ensures[C08] old(r.err) == nil && old(len(r.ctx.arr)) == 0 ==> err != nil && r.valueType == old(r.valueType) && r.value == old(r.value) && r.eof == old(r.eof) && r.bits.pos == old(r.bits.pos)
+//@ ensures[C08] old(r.err) == nil && old(specCtxTop(r.ctx.arr)) == ctxAtTopLevel ==> err != nil && r.valueType == old(r.valueType) && r.value == old(r.value) && r.eof == old(r.eof) && r.bits.pos == old(r.bits.pos)
 //@ ensures[C03,C06,C08] err == nil ==> brInv(r)
 //@ ensures[C03,C08] old(r.err) == nil && old(len(r.ctx.arr)) > 0 && err == nil ==>
 //@    len(r.ctx.arr) == old(len(r.ctx.arr))-1 && !r.eof && r.valueType == NoType && r.value == nil && r.bits.pos == old(bsTopEnd(&r.bits)) && r.bits.state != bssOnValue
@@ -634,7 +634,7 @@ package ion
 //@ ensures[C03,C08,C10] err == nil && !result ==> r.valueType == NoType && r.value == nil && !r.eof
 //@ ensures[C03,C08] old(r.bits.state) == bssBeforeValue && (old(bsTop(&r.bits)) || old(r.bits.pos) != old(bsTopEnd(&r.bits))) && old(bsAvail(&r.bits)) > 0 && err == nil &&
 //@    specIonType(old(bsByte(&r.bits, 0))) != NoType &&
-//@    !(specIonType(old(bsByte(&r.bits, 0))) == StructType && old(len(r.ctx.arr)) == 0 && specIsLSTAnnotation(old(r.annotations))) ==>
+//@    !(specIonType(old(bsByte(&r.bits, 0))) == StructType && old(specCtxTop(r.ctx.arr)) == ctxAtTopLevel && specIsLSTAnnotation(old(r.annotations))) ==>
 //@    result && !r.eof && r.valueType == specIonType(old(bsByte(&r.bits, 0))) && ((r.value == nil) == specTagNull(old(bsByte(&r.bits, 0))))
 //@ ensures[C03,C10] old(r.bits.state) == bssBeforeValue && (old(bsTop(&r.bits)) || old(r.bits.pos) != old(bsTopEnd(&r.bits))) && old(bsAvail(&r.bits)) > 0 && err == nil &&
 //@    specIonType(old(bsByte(&r.bits, 0))) == NoType ==> !result && r.valueType == old(r.valueType)
@@ -644,7 +644,7 @@ package ion
 //@ ensures[C07] old(r.bits.state) == bssBeforeValue && (old(bsTop(&r.bits)) || old(r.bits.pos) != old(bsTopEnd(&r.bits))) && old(bsAvail(&r.bits)) > 0 &&
 //@    specTagIllegal(old(bsByte(&r.bits, 0)), old(bsTop(&r.bits))) ==> err != nil
 //@ ensures[C07] old(r.bits.state) == bssBeforeValue && !old(bsTop(&r.bits)) && old(r.bits.pos) != old(bsTopEnd(&r.bits)) && old(bsAvail(&r.bits)) == 0 ==> err != nil
-//@ ensures[C10] old(r.bits.state) == bssBeforeValue && old(bsTop(&r.bits)) && old(bsAvail(&r.bits)) > 0 && err == nil && old(len(r.ctx.arr)) == 0 &&
+//@ ensures[C10] old(r.bits.state) == bssBeforeValue && old(bsTop(&r.bits)) && old(bsAvail(&r.bits)) > 0 && err == nil && old(specCtxTop(r.ctx.arr)) == ctxAtTopLevel &&
 //@    specIonType(old(bsByte(&r.bits, 0))) == StructType && specIsLSTAnnotation(old(r.annotations)) ==> !result && r.lst != nil &&
 //@    (specTagNull(old(bsByte(&r.bits, 0))) ==> r.lst == V1SystemSymbolTable)
 //@ safe[C06]
@@ -730,6 +730,7 @@ package ion
 //@ safe[C06]
 
 //@ func (*binaryReader).Next
+//@ split returns
 //@ requires brInv(r)
 //@ invariant loop0 [done bool] brLocal(r) && r.err == nil && (done || (r.valueType == NoType && r.value == nil && !r.eof))
 //@ invariant loop0 bsNested(&r.bits)
